@@ -8,7 +8,7 @@ usage: tools/seedcheck.py <prop> <n> [--name <id>]
 import json, os, re, shutil, subprocess, sys
 
 VERIF = os.path.dirname(os.path.dirname(os.path.abspath(__file__)))
-PROPS = ["C01", "C02", "C03", "C04", "C05", "C07", "C08", "C09", "C10", "C11", "C12", "C13", "C14", "C15", "C17"]
+PROPS = ["C01", "C02", "C03", "C04", "C05", "C06", "C07", "C08", "C09", "C10", "C11", "C12", "C13", "C14", "C15", "C17"]
 
 
 def sh(cmd, cwd=None, env=None, timeout=1800):
@@ -53,7 +53,7 @@ def main():
     cmd = re.sub(r"CARGO_TARGET_DIR=\S+\s*", "", cmd)
     cmd = re.sub(r"^cd \S+ && ", "", cmd)
     rc1, out1 = sh(cmd + " 2>&1 | tail -15", cwd=wt, env=env)
-    fails_with = ("test result: FAILED" in out1) or ("panicked" in out1) or ("error: test failed" in out1) or ("SIGABRT" in out1) or ("overflowed its stack" in out1)
+    fails_with = ("test result: FAILED" in out1) or ("panicked" in out1) or ("error: test failed" in out1) or ("SIGABRT" in out1) or ("overflowed its stack" in out1) or ("could not compile" in out1) or ("error[E" in out1)
     ran.append(f"{cmd} (with change): {'FAILED' if fails_with else 'passed?'}")
     # revert only the source change
     if unit_in_src:
